@@ -31,6 +31,7 @@ def http_alphabet(h2: bool) -> List[Dict[str, Any]]:
         {"type": "http.response.push", "path": "/p", "headers": [["x-p", "a\nb"]], "cls": "hdr-ctl"},
         {"type": "http.response.early_hint", "links": ["</style.css>; rel=preload"], "cls": "ok"},
         {"type": "not.a.real.type", "cls": "ok"},
+        {"type": "http.response.trailers", "headers": [["x-t", "0"]], "more": True, "cls": "ok"},
     ]
     return al
 
@@ -92,8 +93,18 @@ def gen_c12(tier: str, rng: random.Random) -> Iterator[Dict[str, Any]]:
                 sc = base_script([{"rid": 1, "method": "GET", "target": "/c12"}], {"*": prog}, fam=fam)
                 sc["steps"] = [{"s": "send"}, {"s": "dt", "d": 0.05}]
             else:
-                steps = [build.h2_headers(1, 1, "GET", toks=[["/c12", "/c12"]], extra=[["te", "trailers"]]), {"s": "dt", "d": 0.05}]
-                sc = h2_script(steps, {"*": prog}, fam)
+                # sequences with trailers: the client may or may not have offered `te: trailers`, and another
+                # request follows on the same connection (its header block still has to decode)
+                tr = any(m["type"] == "http.response.trailers" for m in seq)
+                for te in ((True, False) if tr else (True,)):
+                    steps = [build.h2_headers(1, 1, "GET", toks=[["/c12", "/c12"]], extra=[["te", "trailers"]] if te else []),
+                             {"s": "dt", "d": 0.05}]
+                    apps: Dict[str, Any] = {"*": prog}
+                    if tr:
+                        steps += [build.h2_headers(2, 3, "GET", toks=[["/c12-next", "/c12-next"]]), {"s": "dt", "d": 0.05}]
+                        apps = {"1": prog, "2": build.simple_resp_program(chunks=[4], headers=[["x-b", "2"]])}
+                    yield h2_script(steps, apps, fam if te else fam + "/no-te")
+                continue
             yield sc
     wal = ws_alphabet()
     wseqs = [list(s) for n in (1, 2, 3) for s in itertools.product(wal, repeat=n)]
